@@ -1,0 +1,35 @@
+package yaml
+
+import (
+	"fmt"
+	"reflect"
+	"strings"
+)
+
+// oneMemberOnly checks a union: a struct of pointers, of which one is meant to
+// be set. With several of them, only one would be taken into account.
+func oneMemberOnly(kind string, union any) error {
+	value := reflect.ValueOf(union)
+	unionType := value.Type()
+
+	var set []string
+	for i := 0; i < value.NumField(); i++ {
+		field := value.Field(i)
+		if field.Kind() != reflect.Pointer || field.IsNil() {
+			continue
+		}
+
+		name, _, _ := strings.Cut(unionType.Field(i).Tag.Get("yaml"), ",")
+		if name == "" {
+			name = strings.ToLower(unionType.Field(i).Name)
+		}
+
+		set = append(set, name)
+	}
+
+	if len(set) > 1 {
+		return fmt.Errorf("several %s in one list entry (%s): one is expected, give each of them an entry of its own", kind, strings.Join(set, ", "))
+	}
+
+	return nil
+}
